@@ -3,7 +3,8 @@
 import json, os
 V = os.path.dirname(os.path.dirname(os.path.abspath(__file__)))
 TRUST = ("Trusted: Verus/Z3; the mechanical extraction rules (DESIGN.md 4); assumed contracts on cosmwasm-std, cw-storage-plus, "
-         "rust_decimal, semver, uuid, provwasm (every external_body / assume_specification / axiom is listed in the evidence file); "
+         "rust_decimal, semver, uuid, provwasm (every external_body / assume_specification / axiom is listed in the evidence file; "
+         "Uint128 arithmetic, unwrap and the cw-storage-plus Map::load/may_load/save/remove/update bodies are verified in the shim against one abort primitive and the Path primitives, not assumed); "
          "chain semantics (rollback on Err/abort, messages executed exactly). ")
 P = {
  'C01': ("Per-operation ledger/state postconditions on every handler (real bodies) + lemma_C01_step / lemma_C01_base / lemma_C01_migrate: "
